@@ -230,7 +230,7 @@ type e1Run struct {
 	cfgRev  uint64
 	stopped   bool
 	offset    uint64
-	tolerated int
+	toleratedOwn int
 }
 
 func (r *e1Run) violate(prop, class, sig, detail string) {
@@ -239,11 +239,25 @@ func (r *e1Run) violate(prop, class, sig, detail string) {
 
 // tolerate records a violation that is a listed known finding without ending the run.
 func (r *e1Run) tolerate(prop, class, sig, detail string) {
+	before := len(r.res.Violations)
 	r.res.Violate(prop, class, sig, fmt.Sprintf("step %d: %s", r.step, detail), r.step)
-	r.tolerated++
+	if len(r.res.Violations) > before && (prop == r.prop || r.prop == "") {
+		r.toleratedOwn++
+	}
 }
 
-func (r *e1Run) fatal() bool { return len(r.res.Violations) > r.tolerated }
+// fatal: the run ends at the first violation of the property under check that is not a listed known
+// finding. Violations of other properties are recorded but do not end the run (their own checks report
+// them), so that each check explores independently of the others.
+func (r *e1Run) fatal() bool {
+	n := 0
+	for _, v := range r.res.Violations {
+		if v.Property == r.prop || r.prop == "" {
+			n++
+		}
+	}
+	return n > r.toleratedOwn
+}
 
 func (r *e1Run) now() time.Time { return time.Now() }
 
@@ -387,6 +401,17 @@ func (r *e1Run) afterApply(n *e1Node, e *logEntry, o applyOutcome, before *ircse
 	if e.Msg == nil {
 		return
 	}
+	if n.idx != 0 {
+		// C14 also holds on replicas that lag, restarted, restored or went through save+load
+		for _, bad := range ircserver.VerifInvariants(n.irc) {
+			kind := bad
+			if i := strings.Index(bad, ":"); i > 0 {
+				kind = bad[:i]
+			}
+			r.violate("C14", "invariant", "invariant:"+kind+":"+cmdOf(e), fmt.Sprintf("node %d (restored=%v, cycled=%v) after index %d (%s): %s", n.idx, n.restored, n.cycled, e.Index, descr(e), bad))
+		}
+		r.res.Add("invariant_walks_on_faulted_replicas", 1)
+	}
 	outs, _ := r.outputsOf(n, e)
 	ret := fmt.Sprint(o.ret)
 	if _, seen := r.canonRet[e.Index]; seen {
@@ -403,6 +428,7 @@ func (r *e1Run) afterApply(n *e1Node, e *logEntry, o applyOutcome, before *ircse
 		}
 		return
 	}
+	_ = 0
 	r.canon[e.Index] = outs
 	r.canonRet[e.Index] = ret
 	r.canonNode[e.Index] = n.idx
@@ -466,6 +492,24 @@ func (r *e1Run) compareStates(why string, prop string) {
 				// plain replicas disagreeing is C01; a node that went through snapshot/restore is C02,
 				// one that only went through save+load is C03
 				p = r.blame(n)
+			}
+			// the duplicate-detection marker (C10) and the configuration (C16) have to agree on every replica
+			for _, path := range dumpDiffSigs(refDump, d) {
+				known := false
+				for _, kp := range knownPaths() {
+					if strings.HasPrefix(path, kp) {
+						known = true
+						path = kp
+					}
+				}
+				switch {
+				case strings.HasSuffix(path, ".lastClientMessageId"):
+					r.violate("C10", "marker-diverged", "marker-diverged", fmt.Sprintf("%s: the duplicate-detection marker differs between node %d (restored=%v) and the never-snapshotted node at index %d:\n%s", why, n.idx, n.restored, n.applied, firstDiff(refDump, d)))
+				case strings.HasPrefix(path, "IRCServer.Config") && known:
+					r.tolerate("C16", "config-diverged", "config-diverged:"+path, fmt.Sprintf("%s: configuration differs on node %d in %s", why, n.idx, path))
+				case strings.HasPrefix(path, "IRCServer.Config"):
+					r.violate("C16", "config-diverged", "config-diverged:"+path, fmt.Sprintf("%s: the configuration in force differs between node %d (restored=%v, cycled=%v) and the never-snapshotted node at index %d:\n%s", why, n.idx, n.restored, n.cycled, n.applied, firstDiff(refDump, d)))
+				}
 			}
 			if unk == "" {
 				r.tolerate(p, "replica-state-diverged", "state:"+kn, fmt.Sprintf("%s: node %d differs from the never-snapshotted node at index %d in %s", why, n.idx, n.applied, kn))
